@@ -87,6 +87,77 @@ theorem confluent_exit {inp1 inp2 : RunInput} {s1 s2 : Sys} (hsame : SameTasksC 
     subst this
     exact ⟨n, by rw [← den?_fail hd1]; exact he1⟩
 
+/-! ### the same, from the inclusion of the denotations alone (`hden`; used for graphs without calc_dep) -/
+
+theorem confluent_status_of {inp1 inp2 : RunInput} {s1 s2 : Sys} (hden : ∀ t d, DenOf inp2 t d → DenOf inp1 t d)
+    (h1 : Reach inp1 s1 ∨ PReach inp1 s1) (h2 : Reach inp2 s2 ∨ PReach inp2 s2) (t : Name)
+    (f1 : (stOf s1 t).finished = true) (f2 : (stOf s2 t).finished = true) : stOf s1 t = stOf s2 t := by
+  obtain ⟨d1, a1, b1⟩ := status_is_den h1 t f1
+  obtain ⟨d2, a2, b2⟩ := status_is_den h2 t f2
+  rw [← b1, ← b2, a1.functional (hden _ _ a2)]
+
+theorem confluent_report_of {inp1 inp2 : RunInput} {s1 s2 : Sys} (hden : ∀ t d, DenOf inp2 t d → DenOf inp1 t d)
+    (h1 : Reach inp1 s1 ∨ PReach inp1 s1) (h2 : Reach inp2 s2 ∨ PReach inp2 s2) (t : Name) (d1 d2 : Den)
+    (r1 : ∃ e ∈ s1.events, Ev.den? t e = some d1) (r2 : ∃ e ∈ s2.events, Ev.den? t e = some d2) : d1 = d2 :=
+  (report_is_den h1 t d1 r1).functional (hden _ _ (report_is_den h2 t d2 r2))
+
+theorem confluent_reportOf_of {inp1 inp2 : RunInput} {s1 s2 : Sys} (hden : ∀ t d, DenOf inp2 t d → DenOf inp1 t d)
+    (h1 : Reach inp1 s1 ∨ PReach inp1 s1) (h2 : Reach inp2 s2 ∨ PReach inp2 s2) (t : Name)
+    (r1 : (reportOf (trace inp1 s1) t).isSome = true) (r2 : (reportOf (trace inp2 s2) t).isSome = true) :
+    reportOf (trace inp1 s1) t = reportOf (trace inp2 s2) t := by
+  obtain ⟨d1, e1⟩ := Option.isSome_iff_exists.mp r1
+  obtain ⟨d2, e2⟩ := Option.isSome_iff_exists.mp r2
+  rw [e1, e2]
+  have := (reportOf_is_den h1 t d1 e1).functional (hden _ _ (reportOf_is_den h2 t d2 e2))
+  rw [this]
+
+theorem status_matches_report_of {inp1 inp2 : RunInput} {s1 s2 : Sys} (hden : ∀ t d, DenOf inp2 t d → DenOf inp1 t d)
+    (h1 : Reach inp1 s1 ∨ PReach inp1 s1) (h2 : Reach inp2 s2 ∨ PReach inp2 s2) (t : Name) (d : Den)
+    (f1 : (stOf s1 t).finished = true) (r2 : ∃ e ∈ s2.events, Ev.den? t e = some d) : stOf s1 t = d.rs := by
+  obtain ⟨d1, a1, b1⟩ := status_is_den h1 t f1
+  rw [← b1, a1.functional (hden _ _ (report_is_den h2 t d r2))]
+
+/-- two runs of the same task table that report the same set of tasks exit with the same code -/
+theorem confluent_exit_of {inp1 inp2 : RunInput} {s1 s2 : Sys} (hden : ∀ t d, DenOf inp2 t d → DenOf inp1 t d)
+    (h1 : Reach inp1 s1 ∨ PReach inp1 s1) (h2 : Reach inp2 s2 ∨ PReach inp2 s2)
+    (hh1 : s1.halt = .none) (hh2 : s2.halt = .none)
+    (hset : ∀ t, (∃ d, ∃ e ∈ s1.events, Ev.den? t e = some d) ↔ (∃ d, ∃ e ∈ s2.events, Ev.den? t e = some d)) :
+    exitCode s1 = exitCode s2 := by
+  rw [exit_of_reports h1 hh1, exit_of_reports h2 hh2]
+  apply exitOfTrace_set
+  intro k
+  simp only [List.mem_reverse]
+  constructor
+  · rintro ⟨n, hn⟩
+    have r1 : ∃ e ∈ s1.events, Ev.den? n e = some (.fail k) := ⟨_, hn, by simp [Ev.den?]⟩
+    obtain ⟨d2, e2, he2, hd2⟩ := (hset n).mp ⟨_, r1⟩
+    have := confluent_report_of hden h1 h2 n _ d2 r1 ⟨e2, he2, hd2⟩
+    subst this
+    exact ⟨n, by rw [← den?_fail hd2]; exact he2⟩
+  · rintro ⟨n, hn⟩
+    have r2 : ∃ e ∈ s2.events, Ev.den? n e = some (.fail k) := ⟨_, hn, by simp [Ev.den?]⟩
+    obtain ⟨d1, e1, he1, hd1⟩ := (hset n).mpr ⟨_, r2⟩
+    have := confluent_report_of hden h1 h2 n d1 _ ⟨e1, he1, hd1⟩ r2
+    subst this
+    exact ⟨n, by rw [← den?_fail hd1]; exact he1⟩
+
+/-- per task, the two observable traces carry the same terminal report (or none), given that they report the same set -/
+theorem complete_runs_same_reportOf_of {inp1 inp2 : RunInput} {s1 s2 : Sys}
+    (hden : ∀ t d, DenOf inp2 t d → DenOf inp1 t d)
+    (h1 : Reach inp1 s1 ∨ PReach inp1 s1) (h2 : Reach inp2 s2 ∨ PReach inp2 s2) (t : Name)
+    (hiff : Reported s1 t ↔ Reported s2 t) :
+    reportOf (trace inp1 s1) t = reportOf (trace inp2 s2) t := by
+  rw [← reportOf_isSome_iff inp1, ← reportOf_isSome_iff inp2] at hiff
+  cases hx : reportOf (trace inp1 s1) t with
+  | none =>
+    cases hy : reportOf (trace inp2 s2) t with
+    | none => rfl
+    | some d => rw [hx, hy] at hiff; simp at hiff
+  | some d =>
+    have a : (reportOf (trace inp1 s1) t).isSome = true := by rw [hx]; rfl
+    rw [← hx]
+    exact confluent_reportOf_of hden h1 h2 t a (hiff.mp a)
+
 /-! ### complete runs: same reported set, same exit code -/
 
 theorem R1_same {a b : RunInput} (h : SameTasksC a b) {n : Name} (r : R1 a n) : R1 b n := by
